@@ -443,7 +443,7 @@ Qed.
 
 Lemma setter_eq x o : apply_setter x o = s_setter x o.
 Proof.
-  destruct x as [s|e|m|]; simpl; [| |reflexivity|reflexivity].
+  destruct x as [s|e|m| |]; simpl; [| |reflexivity|reflexivity|reflexivity].
   - unfold obj_short_name, short_ok.
     destruct (is_empty (o_short o)), (str_eq_dec (o_short o) s), (length s =? 1); reflexivity.
   - unfold obj_env, env_ok. destruct (is_empty (o_env o)), (str_eq_dec (o_env o) e); reflexivity.
@@ -833,7 +833,7 @@ Qed.
 Theorem short_name_rules p g k n s ob :
   let i := (gkey g, k, n) in
   lookup p i = Some ob ->
-  let ob' := mkObj s (o_env ob) (o_metavar ob) (o_default ob) in
+  let ob' := mkObj s (o_env ob) (o_metavar ob) (o_default ob) (o_optional ob) in
   (length s = 1 /\ (o_short ob = [] \/ o_short ob = s) ->
      step p (OSet g k n (SShort s)) = (store p i ob', ROk i) /\ lookup (store p i ob') i = Some ob' /\
      forall j, j <> i -> lookup (store p i ob') j = lookup p j) /\
